@@ -39,6 +39,11 @@ Absolute(sc, B, u, r) ==
   If(Has(sc.inputs[r.i], "r") /\ sc.inputs[r.i].r # r.w, Mis("INFRA", "input-echo", u, r, sc.inputs[r.i].r, r.w)) \o
   (IF r.pn # "" THEN <<>> ELSE
    If(r.ok # E.ok, Mis("C01", "verdict", u, r, E.ok, r.ok)) \o
+   \* C13 for an arbitrary Go string (family bytes): the parser works on []rune(Buffer) - r.w, computed by the shim
+   \* independently of the parser - so verdict and tokens are PegSem's on that rune sequence; otherwise slicing the
+   \* rune sequence by a token does not give what the token's rule matched (an invalid byte read as another rune)
+   If(Has(sc.inputs[r.i], "b") /\ (r.ok # E.ok \/ (r.ok /\ r.tk # E.toks)),
+      Mis("C13", "rune-sequence", u, r, <<E.ok, E.toks>>, <<r.ok, r.tk>>)) \o
    (IF r.ok /\ E.ok THEN
       If(LastEnd(r.tk) # E.pos, Mis("C01", "consumed", u, r, E.pos, LastEnd(r.tk))) \o
       If(r.tk # E.toks, Mis("C03", "tokens", u, r, E.toks, r.tk)) \o
@@ -202,7 +207,9 @@ Relative(sc, units, du, u, k) ==
      LET c0 == DefaultPlanIdx(sc, pl)
          S == {j \in 1..Len(u.runs) : u.runs[j].i = r.i /\ u.runs[j].c = c0 /\ u.runs[j].h = 0} IN
      IF c0 = 0 \/ S = {} THEN <<>>
-     ELSE CmpFrom(IF ~pl.memo /\ pl.size = 0 /\ pl.u = "uint32" THEN "C06" ELSE "C12", u, r, u.runs[CHOOSE j \in S : TRUE], 1, CmpFields)
+     ELSE CmpFrom(IF ~pl.memo /\ pl.size = 0 /\ pl.u = "uint32" THEN "C06" ELSE "C12", u, r, u.runs[CHOOSE j \in S : TRUE], 1, CmpFields) \o
+          \* C05 is stated for every instantiation: the tree and its printed form under another index type
+          (IF pl.u # "uint32" THEN CmpFrom("C05", u, r, u.runs[CHOOSE j \in S : TRUE], 1, <<"as", "pr">>) ELSE <<>>)
   ELSE <<>>
 
 RECURSIVE JudgeRuns(_, _, _, _, _, _)
